@@ -61,7 +61,9 @@ def ensure_native(log=print):
         subprocess.run('cp %s/Cargo.lock %s/native/Cargo.lock.repo' % (REPO, VERIF), shell=True)
         rc, o = sh('cargo build --offline', cwd=os.path.join(VERIF, 'native'), env=env)
         if rc != 0: raise RuntimeError('native tool build failed:\n' + o[-3000:])
-        rc, o = sh('cargo build --offline --bin cicada', cwd=REPO, env=env)
+        # the shell binary itself is built WITHOUT the guard (it is what users run; the hooks live in the lib only)
+        envb = dict(ENV, CARGO_TARGET_DIR=os.path.join(BUILD, 'bin'))
+        rc, o = sh('cargo build --offline --bin cicada', cwd=REPO, env=envb)
         if rc != 0: raise RuntimeError('cicada build failed:\n' + o[-3000:])
     log('native side built in %.1fs' % (time.time() - t))
 
@@ -142,10 +144,25 @@ def main(argv=None):
     log('%d instances, %d workers, tier=%s, budget=%ds' % (len(jobs), a.jobs, a.tier, budget))
     results = []
     ctxm = mp.get_context('fork')
-    with ctxm.Pool(min(a.jobs, max(1, len(jobs)))) as pool:
-        for r in pool.imap_unordered(_worker, jobs, chunksize=1):
-            results.append(r)
-            if 'error' in r: log('instance %s ERROR %s' % (r['instance'], r['error'][-400:]))
+    byname = {i['name']: i for i in insts}
+    with ctxm.Pool(min(a.jobs, 16)) as pool:
+        pending = jobs
+        while pending:
+            nxt = []
+            for r in pool.imap_unordered(_worker, pending, chunksize=1):
+                results.append(r)
+                if 'error' in r: log('instance %s ERROR %s' % (r['instance'], r['error'][-400:]))
+                # an instance explored with a split depth hands back the sub-trees it did not enter
+                for k, pfx in enumerate(r.get('prefixes') or []):
+                    base = byname.get(r['instance'])
+                    if base is None: continue
+                    lvl = base.get('_level', 0) + 1
+                    sub = dict(base, name='%s#%d' % (base['name'], k), _prefix=pfx, _level=lvl,
+                               _split=(len(pfx) + base.get('_split_step', 12)) if lvl < 3 else None)
+                    byname[sub['name']] = sub
+                    nxt.append((hname, sub, a.tier, seed, deadline))
+            if nxt: log('%d sub-trees dispatched' % len(nxt))
+            pending = nxt
     return hmod.finish(pid, a.tier, seed, results, load_known(pid), time.time() - t0, th, log)
 
 if __name__ == '__main__':
